@@ -149,7 +149,16 @@ pub fn signal_op(g: &mut G) -> Option<Op> {
         let id = g.fresh();
         g.sigsrc.push(id);
         let sigs = subset(g);
-        return Some(Op::SigNew { id, sigs, script: vec![] });
+        // now and then the callback itself raises signals (also ones reported in this drain)
+        let mut script = vec![];
+        if g.rng.chance(1, 3) {
+            for _ in 0..g.rng.range(1, 3) {
+                let n = g.rng.range(0, 2);
+                let ops = (0..n).map(|_| if g.rng.chance(1, 4) { Op::Kill(g.rng.below(g.nsig) as u8) } else { Op::Raise(g.rng.below(g.nsig) as u8) }).collect();
+                script.push(CbEntry { ops, ret: Ret::Continue });
+            }
+        }
+        return Some(Op::SigNew { id, sigs, script });
     }
     let id = *g.sigsrc.last().unwrap();
     Some(match g.rng.below(16) {
@@ -166,7 +175,14 @@ pub fn signal_op(g: &mut G) -> Option<Op> {
             }
         }
         10 | 11 | 12 => Op::Dispatch(Timeout::Zero),
-        _ => Op::Raise(g.rng.below(g.nsig) as u8),
+        _ => {
+            let s = g.rng.below(g.nsig) as u8;
+            if g.rng.chance(1, 3) {
+                Op::Kill(s)
+            } else {
+                Op::Raise(s)
+            }
+        }
     })
 }
 
